@@ -98,8 +98,9 @@ def run(ctx):
                     "table_row_spec (multi-segment) and table_row_spec_single_segment, composition_is_definition (single-segment) and "
                     "composition_is_definition_aux (interpolation from C09, polynomial form from validity via C01), "
                     "composition_is_definition_partial (abstract interpolation hypotheses), group_merge_value_preserving, lde_rows_from_segments, "
-                    "lagrange_row_spec, verifier_lagrange_agrees, table_with_lagrange; all for any field with FLaws and all sizes",
-        "correspondence_only": "extension fields (falsifier; every theorem is over one abstract field, the E != B transport lemma is not proved); the capstone for the Lagrange terms",
+                    "lagrange_row_spec, verifier_lagrange_agrees, table_with_lagrange, lagrange_term_is_poly, lagrange_boundary_is_poly, lag_def_is_poly, "
+                    "composition_is_definition_lagrange_partial, mixed_ops_are_embedded, boundary_repr_equiv_ext, ext_f64_embeddings; all for any field with FLaws and all sizes",
+        "correspondence_only": "extension fields for the whole pipeline (falsifier; the mixed primitive operations are transported by C17_mixed_ops_are_embedded, a mixed model of the whole evaluate() is not built); the Lagrange capstone is compositional (_partial)",
         "falsifier_mutation_tests": "notes/C17.design.md: 9 seeded changes on a private copy of /repo, all reported at the quick budget",
     }
     ctx.trusted.insert(0, "Coq 8.16.1 kernel; Print Assumptions under every theorem")
